@@ -7,7 +7,7 @@ from pathlib import Path
 
 import numpy as np
 
-from .. import games, seams
+from .. import games, seams, simthreads
 from .. import prelude
 from ..core import Sim
 from ..simfs import SimFS
@@ -16,16 +16,19 @@ LEVEL = "exploration"
 RULE = ("Each run draws (n, reveal limit, plain/plus), constructs a minimiser, checks the ranking, then plays a "
         "seeded history of iterations with non-negative float32 terminal vectors (random, all-zero, single spike, "
         "0/1, large) interleaved with checkpoint-restart events (save through the storage seam, drop the object, "
-        "evict memos, jump hidden entropy, load, continue twin-fed); every iteration is checked at every internal "
+        "evict memos, jump hidden entropy, load, continue twin-fed) and with iterations of a second, unjudged "
+        "minimiser of another size in the same process - between the judged iterations or overlapping them in "
+        "another caller thread; every iteration is checked at every internal "
         "node against a float64 one-step reference model. Non-trivial = at least one iteration checked; distinct "
         "= distinct event-log digests.")
 STATE_MEASURE = "distinct (n, limit, plus, iteration number, restarted?) at which all nodes were checked"
 REAL_VS_STUB = {"real": ["incomplete_cooperative.regret", "numpy.save/load", "json"],
-                "stub": [], "seams": ["SimFS (fault-free, buffering knobs) for the checkpoint", "process restart"]}
+                "stub": [], "seams": ["SimFS (fault-free, buffering knobs) for the checkpoint", "process restart",
+                                       "line-granular thread interleaver (sim/simthreads.py)"]}
 ASSUMPTIONS = ["terminal values are non-negative float32 (the property's precondition)",
                "float32 arithmetic: one-step comparison tolerance 2e-4*scale absolute + 1e-4 relative",
                "rows of cumulative_regret / cumulative_strategy are indexed by the documented rank of a node"]
-PROBES = ["leaves_listed_in_another_order", "old_checkpoint_loaded_again", "limit_below_boundary", "limit_above_number_of_coalitions", "restart_then_iterate", "n5", "plus",
+PROBES = ["iteration_overlapped_with_another_minimisers_iteration", "leaves_listed_in_another_order", "old_checkpoint_loaded_again", "limit_below_boundary", "limit_above_number_of_coalitions", "restart_then_iterate", "n5", "plus",
           "all_zero_values", "uniform_fallback_at_nonroot"]
 TIERS = {
     "quick": {"runs": 10000, "wall": 40, "batch": 6, "shrink_s": 40},
@@ -93,6 +96,7 @@ def run(sim: Sim) -> None:
     twin = None  # the never-stopped minimiser once a restart has happened
     restarted = False
     checkpoints: list[tuple] = []  # (directory, iteration, regret bytes, strategy bytes) as saved
+    second = None  # a second minimiser of this process: (object, its leaves)
     try:
         iters = 1 + sim.choose(6 if len(internal) < 200 else 3, "iterations")
         for t in range(iters):
@@ -142,7 +146,33 @@ def run(sim: Sim) -> None:
             vals_p = vals[perm]
             leaves_p = [leaves[i] for i in perm]
             leaf_ids_p = [leaf_ids[i] for i in perm]
-            iterate_checked(sim, m, vals_p, leaves_p, leaf_ids_p, internal, n, noc, L, plus, viable, ctx)
+            other_thread = None
+            if sim.flip(1, 4, "other-minimiser"):
+                # a second, unjudged minimiser lives in this process (another size / limit, often a bigger tree) and
+                # iterates between - or, in another caller thread, during - the judged iterations
+                if second is None:
+                    n2 = sim.pick([3, 4, 5], "other-n")
+                    l2 = sim.pick({3: [2, 3, 4], 4: [1, 2, 3], 5: [1, 2]}[n2], "other-limit")
+                    with sim.guard("C14.constructor_raised"):
+                        om = GameRegretMinimizer(n2, l2, bool(sim.choose(2, "other-plus")))
+                    v2 = viable_ids(n2)
+                    o_leaves = [[games.coalition(v2[p]) for p in combo]
+                                for combo in itertools.combinations(range(len(v2)), min(l2, len(v2)))]
+                    second = (om, o_leaves)
+                om, o_leaves = second
+                o_vals = draw_terminal(sim, len(o_leaves))
+
+                def other_iteration(om=om, o_vals=o_vals, o_leaves=o_leaves):
+                    try:
+                        om.regret_min_iteration(o_vals, o_leaves)
+                    except Exception:  # not judged
+                        pass
+                sim.fault("other_minimiser_iterated_in_this_process")
+                if len(internal) <= 400 and sim.flip(1, 2, "in-another-thread"):
+                    other_thread = other_iteration
+                else:
+                    other_iteration()
+            iterate_checked(sim, m, vals_p, leaves_p, leaf_ids_p, internal, n, noc, L, plus, viable, ctx, other_thread)
             sim.state(n, limit, plus, t, restarted)
             if twin is not None and twin is not m:
                 with sim.guard("C14.iteration_raised"):
@@ -203,7 +233,8 @@ def strategy_ref(row: np.ndarray, node: int, noc: int) -> np.ndarray:
     return pos / pos.sum()
 
 
-def iterate_checked(sim: Sim, m, vals: np.ndarray, leaves, leaf_ids, internal, n, noc, L, plus, viable, ctx) -> None:
+def iterate_checked(sim: Sim, m, vals: np.ndarray, leaves, leaf_ids, internal, n, noc, L, plus, viable, ctx,
+                    other_thread=None) -> None:
     rank = m.meta_id_to_rank
     R0 = np.array(m.cumulative_regret, dtype=np.float64)
     S0 = np.array(m.cumulative_strategy, dtype=np.float64)
@@ -224,7 +255,12 @@ def iterate_checked(sim: Sim, m, vals: np.ndarray, leaves, leaf_ids, internal, n
         sigma[node] = s
     sim.op("iteration", it0 + 1, vals)
     with sim.guard("C14.iteration_raised"):
-        m.regret_min_iteration(vals.copy(), leaves)
+        if other_thread is not None:
+            # another caller thread iterates its own minimiser while this iteration runs
+            simthreads.interleave(sim, [lambda: m.regret_min_iteration(vals.copy(), leaves), other_thread])
+            sim.probe("iteration_overlapped_with_another_minimisers_iteration")
+        else:
+            m.regret_min_iteration(vals.copy(), leaves)
     R1 = np.array(m.cumulative_regret, dtype=np.float64)
     S1 = np.array(m.cumulative_strategy, dtype=np.float64)
     sim.checked()
